@@ -639,6 +639,120 @@ Definition cli_into (a : cli_args) : cli_result :=
   else CliUsageError.
 
 (* ------------------------------------------------------------------------------------------------ *)
+(* derivation histories: the object graph of schemas and their (mutable) filter sets                  *)
+(* In Python a FilterSet holds two mutable set objects; BaseSchema.include / exclude (schemas.py:145,178) call
+   FilterSet.clone (filters.py:150: FilterSet(_includes=self._includes.copy(), _excludes=self._excludes.copy()))
+   and then MUTATE the clone (self._includes.add, filters.py:283); statistic is a cached_property of the schema
+   object (schemas.py:255).  The heap below has one cell per set object; a schema object is a node holding the two
+   cell indices of its filter set and its cached statistic.  [shared = true] is the variant in which clone passes
+   the parent's sets on (FilterSet.__init__ replaces only an EMPTY set by a fresh one): it is NOT the code, it is
+   kept as a sentinel (C07_shared_clone_not_independent). *)
+Fixpoint upd {A} (i : nat) (v : A) (l : list A) : list A :=
+  match l, i with
+  | [], _ => []
+  | _ :: r, O => v :: r
+  | x :: r, S i' => x :: upd i' v r
+  end.
+Definition cell (cells : list (list flt)) (i : nat) : list flt := nth i cells [].
+Definition deref (cells : list (list flt)) (refs : nat * nat) : filter_set :=
+  {| fs_includes := cell cells (fst refs); fs_excludes := cell cells (snd refs) |}.
+
+Record hnode := { n_inc : nat; n_exc : nat; n_stat : option statistic }.
+Record hstate := { h_cells : list (list flt); h_nodes : list hnode }.
+Definition node_refs (n : hnode) : nat * nat := (n_inc n, n_exc n).
+
+(* FilterSet.clone: the new set objects and the heap after allocation *)
+Definition heap_clone (shared : bool) (cells : list (list flt)) (refs : nat * nat) : list (list flt) * (nat * nat) :=
+  if shared then
+    let i := cell cells (fst refs) in
+    let e := cell cells (snd refs) in
+    let (cells1, ri) := match i with [] => (cells ++ [[]], length cells) | _ => (cells, fst refs) end in
+    let (cells2, re) := match e with [] => (cells1 ++ [[]], length cells1) | _ => (cells1, snd refs) end in
+    (cells2, (ri, re))
+  else (cells ++ [cell cells (fst refs); cell cells (snd refs)], (length cells, S (length cells))).
+
+(* _add_filter on the heap: raises before mutating, otherwise adds to ONE of the two set objects in place *)
+Definition heap_add (include : bool) (a : add_args) (refs : nat * nat) (cells : list (list flt)) : list (list flt) * bool :=
+  match add_filter include a (deref cells refs) with
+  | Added fs' => (upd (snd refs) (fs_excludes fs') (upd (fst refs) (fs_includes fs') cells), true)
+  | Rejected _ => (cells, false)
+  end.
+Definition heap_call (c : call) (refs : nat * nat) (cells : list (list flt)) : list (list flt) * bool :=
+  match c with
+  | CInclude a => heap_add true a refs cells
+  | CExclude a deprecated =>
+      if deprecated then
+        match a_func a with
+        | None => heap_add false (with_func a is_deprecated_id is_deprecated) refs cells
+        | Some _ =>
+            match heap_add false (only_func is_deprecated_id is_deprecated) refs cells with
+            | (cells1, true) => heap_add false a refs cells1
+            | (cells1, false) => (cells1, false)
+            end
+        end
+      else heap_add false a refs cells
+  end.
+
+Inductive event := EDerive (parent : nat) (c : call) | EStat (node : nat).
+
+Definition heap_step (shared : bool) (d : doc) (st : hstate) (e : event) : hstate :=
+  match e with
+  | EDerive p c =>
+      match nth_error (h_nodes st) p with
+      | None => st
+      | Some pn =>
+          let (cells1, refs) := heap_clone shared (h_cells st) (node_refs pn) in
+          let (cells2, ok) := heap_call c refs cells1 in
+          {| h_cells := cells2;
+             h_nodes := if ok then h_nodes st ++ [{| n_inc := fst refs; n_exc := snd refs; n_stat := None |}] else h_nodes st |}
+      end
+  | EStat n =>
+      match nth_error (h_nodes st) n with
+      | None => st
+      | Some hn =>
+          match n_stat hn with
+          | Some _ => st
+          | None =>
+              {| h_cells := h_cells st;
+                 h_nodes := upd n {| n_inc := n_inc hn; n_exc := n_exc hn;
+                                     n_stat := Some (measure_statistic (deref (h_cells st) (node_refs hn)) d) |} (h_nodes st) |}
+          end
+      end
+  end.
+(* the schema returned by the loader: an empty filter set (two fresh sets), nothing cached *)
+Definition heap_init : hstate :=
+  {| h_cells := [[]; []]; h_nodes := [{| n_inc := 0; n_exc := 1; n_stat := None |}] |}.
+Definition heap_run (shared : bool) (d : doc) (es : list event) : hstate := fold_left (heap_step shared d) es heap_init.
+
+(* the specification: value semantics, every schema owns its filter set *)
+Record vnode := { v_fs : filter_set; v_stat : option statistic }.
+Definition value_step (d : doc) (st : list vnode) (e : event) : list vnode :=
+  match e with
+  | EDerive p c =>
+      match nth_error st p with
+      | None => st
+      | Some pn => match apply_call c (v_fs pn) with
+                   | Added fs' => st ++ [{| v_fs := fs'; v_stat := None |}]
+                   | Rejected _ => st
+                   end
+      end
+  | EStat n =>
+      match nth_error st n with
+      | None => st
+      | Some vn => match v_stat vn with
+                   | Some _ => st
+                   | None => upd n {| v_fs := v_fs vn; v_stat := Some (measure_statistic (v_fs vn) d) |} st
+                   end
+      end
+  end.
+Definition value_init : list vnode := [{| v_fs := fs_empty; v_stat := None |}].
+Definition value_run (d : doc) (es : list event) : list vnode := fold_left (value_step d) es value_init.
+
+(* what the heap looks like from outside *)
+Definition heap_abs (st : hstate) : list vnode :=
+  map (fun hn => {| v_fs := deref (h_cells st) (node_refs hn); v_stat := n_stat hn |}) (h_nodes st).
+
+(* ------------------------------------------------------------------------------------------------ *)
 (* what the correspondence harness observes for one schema + one chain of include / exclude calls     *)
 Inductive outcome :=
 | ORejected (e : add_error) (at_call : N)
@@ -664,3 +778,13 @@ Definition run_case (d : doc) (cs : list call) : outcome :=
   end.
 Definition run_cli (d : doc) (a : cli_args) : option outcome :=
   match cli_into a with CliOk fs => Some (observe fs d) | CliUsageError => None end.
+
+(* every node of a derivation history: offered operations, statistic (the cached one when it was read earlier),
+   transitions *)
+Definition observe_node (d : doc) (vn : vnode) : list (str * str) * (nat * nat * nat * nat) * option (list (str * str * str * str)) :=
+  let fs := v_fs vn in
+  let st := match v_stat vn with Some s => s | None => measure_statistic fs d end in
+  (map (fun o => (o_path o, o_method o)) (get_all_operations fs d),
+   (st_ops_total st, st_ops_selected st, st_links_total st, st_links_selected st),
+   option_map (map (fun t => (t_source t, t_status t, t_name t, t_target t))) (collect_transitions fs d)).
+Definition run_history (d : doc) (es : list event) := map (observe_node d) (heap_abs (heap_run false d es)).
